@@ -109,6 +109,22 @@ theorem closeViaWrite_split_eq (body : Bytes) :
     have : (2 : Int) ≤ ↑r.length + 1 + 1 := by omega
     simp [this, goU16BE, goIdx, Frame.be16]
 
+/-- a read-path error of the model as the Go error value `readMessage` returns -/
+def goErrOfReadErr : Close.ReadErr → Option GoErr
+  | .status c => some (.status (UInt16.ofNat c))
+  | .coded c => some (.coded (UInt16.ofNat c))
+  | .other => some .io
+
+/-- the status `emitError(true, err)` sends for an error of the read path = `Close.ReadErr.sendCode` (a status code is sent
+as it is, an `*internal.Error` with its code, anything else — I/O — with 1000); a write-side error sends 1001 -/
+theorem emitError_status_eq (e : Close.ReadErr) :
+    Trans.Conn_emitError_status true (goErrOfReadErr e) = .ok (UInt16.ofNat e.sendCode) := by
+  cases e <;> simp [Trans.Conn_emitError_status, goErrOfReadErr, Close.ReadErr.sendCode, Facts.closeNormalClosure]
+
+theorem emitError_status_write (err : Option GoErr) :
+    Trans.Conn_emitError_status false err = .ok (UInt16.ofNat Facts.closeGoingAway) := by
+  simp [Trans.Conn_emitError_status, Facts.closeGoingAway]
+
 /-! ## non-vacuity: the translated code on concrete inputs -/
 
 deriving instance DecidableEq for Except
